@@ -45,13 +45,14 @@ package mqtt
 //@ ensures[C08] forall(i, old(wire_len(conn)), wire_len(conn), wire(conn)[i] == p[i - old(wire_len(conn))])
 //@ ensures[C08,C14] err == nil ==> wire_len(conn) == old(wire_len(conn)) + len(p)
 //@ ensures[C08] forall(k, 0, len(p), p[k] == old(p[k]))
+//@ ensures foreign(err)
 
 //@ func mqtt.(*Client).peekPacket -> head, err
-//@ modifies c.peek, rx_pos(c.bufr), rx_buf(c.bufr), rx_pend(c.bufr), rdl(c.readConn)
+//@ modifies c.peek, rx_pos(c.bufr), rx_buf(c.bufr), rx_pend(c.bufr), rdl(c.readConn), cpos(rx_src(c.bufr))
 //@ requires c.bufr != nil && c.readConn != nil
 //@ loop 1: unroll 5
 //@ loop 2: let P = rx_pos(c.bufr)
-//@ loop 2: modifies c.peek, rx_buf(c.bufr), rx_pend(c.bufr), rdl(c.readConn)
+//@ loop 2: modifies c.peek, rx_buf(c.bufr), rx_pend(c.bufr), rdl(c.readConn), cpos(rx_src(c.bufr))
 //@ loop 2: invariant rx_pos(c.bufr) == P
 //@ ensures[C13] (err == nil || hastype(err, *BigMessage)) ==> rx_pos(c.bufr) - old(rx_pos(c.bufr)) >= 2 && rx_pos(c.bufr) - old(rx_pos(c.bufr)) <= 5
 //@ ensures[C13] err == nil ==> len(c.peek) <= 268435455
@@ -450,3 +451,29 @@ package mqtt
 //@ ensures[C18] err != nil && err != ErrClosed ==> len(c.writeSem) == 1 && qat(c.writeSem, 0) == boxed(connSignal, 1)
 //@ ensures[C07] c.pendingAck == old(c.pendingAck)
 //@ ensures[C01] c.Acked == old(c.Acked) && c.Received == old(c.Received) && c.Completed == old(c.Completed)
+
+// newCONNREQ: the CONNECT packet as a function of every Config field.
+//@ pred cfgok(c, clientID): len(clientID) <= 65535 && len(c.UserName) <= 65535 && len(c.Password) <= 65535 && len(c.Will.Topic) <= 65535 && len(c.Will.Message) <= 65535
+//@ func mqtt.(*Config).newCONNREQ -> r
+//@ requires cfgok(c, clientID)
+//@ modifies nothing
+//@ loop 1: unroll 4
+//@ ensures[C09,C18] fresh(r) && r[0] == 16
+//@ ensures[C09,C18] len(r) == 1 + vlen(connsize(len(clientID), ite(len(c.UserName) != 0 || c.Password != nil, 1, 0), len(c.UserName), ite(c.Password != nil, 1, 0), len(c.Password), ite(c.Will.Message != nil, 1, 0), len(c.Will.Topic), len(c.Will.Message))) + connsize(len(clientID), ite(len(c.UserName) != 0 || c.Password != nil, 1, 0), len(c.UserName), ite(c.Password != nil, 1, 0), len(c.Password), ite(c.Will.Message != nil, 1, 0), len(c.Will.Topic), len(c.Will.Message))
+//@ ensures[C09,slow] r[1] == vbyte(connsize(len(clientID), ite(len(c.UserName) != 0 || c.Password != nil, 1, 0), len(c.UserName), ite(c.Password != nil, 1, 0), len(c.Password), ite(c.Will.Message != nil, 1, 0), len(c.Will.Topic), len(c.Will.Message)), 0)
+//@ ensures[C09,C18,slow] forall(v, v == vlen(connsize(len(clientID), ite(len(c.UserName) != 0 || c.Password != nil, 1, 0), len(c.UserName), ite(c.Password != nil, 1, 0), len(c.Password), ite(c.Will.Message != nil, 1, 0), len(c.Will.Topic), len(c.Will.Message))) ==> r[1+v] == 0 && r[2+v] == 4 && r[3+v] == 77 && r[4+v] == 81 && r[5+v] == 84 && r[6+v] == 84 && r[7+v] == 4 && r[9+v] == c.KeepAlive / 256 && r[10+v] == c.KeepAlive % 256 && r[11+v] == len(clientID) / 256 && r[12+v] == len(clientID) % 256)
+//@ ensures[C09,C18,slow] forall(v, v == vlen(connsize(len(clientID), ite(len(c.UserName) != 0 || c.Password != nil, 1, 0), len(c.UserName), ite(c.Password != nil, 1, 0), len(c.Password), ite(c.Will.Message != nil, 1, 0), len(c.Will.Topic), len(c.Will.Message))) ==> r[8+v] == connflags(ite(len(c.UserName) != 0 || c.Password != nil, 1, 0), ite(c.Password != nil, 1, 0), ite(c.Will.Message != nil, 1, 0), ite(c.Will.Retain, 1, 0), ite(c.Will.ExactlyOnce, 2, ite(c.Will.AtLeastOnce, 1, 0)), ite(c.CleanSession, 1, 0)))
+//@ ensures[C09,C18,slow] forall(v, v == vlen(connsize(len(clientID), ite(len(c.UserName) != 0 || c.Password != nil, 1, 0), len(c.UserName), ite(c.Password != nil, 1, 0), len(c.Password), ite(c.Will.Message != nil, 1, 0), len(c.Will.Topic), len(c.Will.Message))) ==> seq_eq(arr(r), off(r) + 13 + v, arr(clientID), off(clientID), len(clientID)))
+
+// handshake: CONNECT is the first and only write; nil only for a valid accepting CONNACK;
+// the returned reader stands exactly behind the four CONNACK bytes of the connection's stream.
+//@ func mqtt.(*Client).handshake -> r, err
+//@ requires conn != nil && config != nil && cfgok(config, clientID)
+//@ at[C18] call writeTo#1: assert wire_len(conn) == old(wire_len(conn))
+//@ ensures[C13,C18] err == nil ==> r != nil && rx_stream(r)[0] == 32 && rx_stream(r)[1] == 2 && rx_stream(r)[3] == 0 && (rx_stream(r)[2] == 0 || (rx_stream(r)[2] == 1 && !config.CleanSession))
+//@ ensures[C06,C18] err == nil ==> rx_src(r) == conn && rx_base(r) == old(cpos(conn)) && rx_pos(r) == 4
+//@ ensures[C18] err == nil && rx_stream(r)[2] == 0 ==> c.InNewSession.v != 0
+//@ ensures[C18] err == nil && rx_stream(r)[2] == 1 ==> c.InNewSession.v == old(c.InNewSession.v)
+//@ ensures[C18] err != nil ==> r == nil
+//@ ensures[C18] hastype(err, connectReturn) ==> unbox(err, connectReturn) != 0
+//@ ensures[C08] forall(k, 0, old(wire_len(conn)), wire(conn)[k] == old(wire(conn))[k])
